@@ -6,15 +6,31 @@ import vlib
 
 # operations beyond the listed properties (DESIGN.md section 9): a wrong RESULT of one of these is reported as
 # information (NOTE line, evidence counter); a state change or a panic caused by them is still a violation.
-INFO_OPS = {"delete_label", "s_read_label", "get_labels", "find_label", "pointer_destinations", "equal_regions", "endian_encode", "endian_decode"}
+INFO_OPS = {"delete_label", "s_read_label", "get_labels", "find_label", "pointer_destinations", "equal_regions", "endian_encode", "endian_decode",
+            "s_read_sjis", "s_read_utf16"}
 
 
 def informational(ev, pre, got):
-    if ev["op"] not in INFO_OPS or "panic" in got or "panic" in got.get("res", {}):
+    if "panic" in got or "panic" in got.get("res", {}):
+        return False
+    if ev["op"] == "session":
+        # a session that uses one of those operations is judged like them (its other steps are covered by sessions without)
+        return any(s["op"] in INFO_OPS for s in ev["steps"]) and got.get("st") == pre
+    if ev["op"] not in INFO_OPS:
         return False
     if ev["op"] == "delete_label":
         return got.get("st", {}).get("data") == pre.get("data")
     return got.get("st") == pre
+
+
+def pre_states(events):
+    """state of the event's own object before the event (two objects may be interleaved: field "obj")"""
+    last, out = {}, []
+    for ev in events:
+        o = ev.get("obj", 0)
+        out.append(last.get(o))
+        last[o] = ev["post"]
+    return out
 
 
 def classify(case, got):
@@ -86,15 +102,16 @@ def run(ctx, focus, profiles):
         rep = t.tagged("R")
         if len(rep) != 1 or rep[0]["n"] != len(events):
             raise vlib.ToolError("trace not consumed: %s" % rep)
+        pre_of = pre_states(events)
         for i in rep[0]["bad"]:
             ev = events[i - 1]
-            if i >= 2 and informational(ev, events[i - 2]["post"], {"res": ev["res"], "st": ev["post"]}):
+            if pre_of[i - 1] is not None and informational(ev, pre_of[i - 1], {"res": ev["res"], "st": ev["post"]}):
                 ctx.extra["informational_mismatches"] = ctx.extra.get("informational_mismatches", 0) + 1
                 continue
             sig = {"dir": "impl->spec", "op": ev["op"], "profile": prof}
             if "panic" in ev.get("res", {}):
                 sig["panic"] = ev["res"]["panic"].split(" [")[0]
-            ctx.violation(sig, {"index": i, "pre": events[i - 2]["post"] if i >= 2 else None, "event": ev, "profile": prof})
+            ctx.violation(sig, {"index": i, "pre": pre_of[i - 1], "event": ev, "profile": prof})
         events_total += len(events)
         ctx.sample({"recorded_event": events[min(7, len(events) - 1)]}, cap=8)
     ctx.traces += events_total
